@@ -205,12 +205,16 @@ LoadStatus DepsLog::Load(const string& path, State* state, string* err) {
     }
 
     if (is_deps) {
-      if ((size % 4) != 0) {
+      if ((size % 4) != 0 || size < 12) {
         read_failed = true;
         break;
       }
       int* deps_data = reinterpret_cast<int*>(buf);
       int out_id = deps_data[0];
+      if (out_id < 0 || out_id >= (int)nodes_.size()) {
+        read_failed = true;
+        break;
+      }
       TimeStamp mtime;
       mtime = (TimeStamp)(((uint64_t)(unsigned int)deps_data[2] << 32) |
                           (uint64_t)(unsigned int)deps_data[1]);
@@ -219,7 +223,8 @@ LoadStatus DepsLog::Load(const string& path, State* state, string* err) {
 
       for (int i = 0; i < deps_count; ++i) {
         int node_id = deps_data[i];
-        if (node_id >= (int)nodes_.size() || !nodes_[node_id]) {
+        if (node_id < 0 || node_id >= (int)nodes_.size() ||
+            !nodes_[node_id]) {
           read_failed = true;
           break;
         }
@@ -242,9 +247,12 @@ LoadStatus DepsLog::Load(const string& path, State* state, string* err) {
         break;
       }
       // There can be up to 3 bytes of padding.
-      if (buf[path_size - 1] == '\0') --path_size;
-      if (buf[path_size - 1] == '\0') --path_size;
-      if (buf[path_size - 1] == '\0') --path_size;
+      for (int i = 0; i < 3 && path_size > 0 && buf[path_size - 1] == '\0'; ++i)
+        --path_size;
+      if (path_size == 0) {
+        read_failed = true;
+        break;
+      }
       StringPiece subpath(buf, path_size);
       // It is not necessary to pass in a correct slash_bits here. It will
       // either be a Node that's in the manifest (in which case it will already
